@@ -199,6 +199,8 @@ def run_differential(progs, base_il_defs: dict, base_c_subs: dict, nstates: int,
         fn = p.extra.get("states_fn")
         if fn is not None:
             sts.extend(fn(rng, ops))
+        if not p.extra.get("no_edge_states") and (nstates or fn is None):
+            sts.extend(CO.edge_states(rng, ops))
         for st in sts:
             cases.append((idx, st))
     cres = orc.run(cases)
